@@ -51,6 +51,8 @@ def atoms(seed):
         ("reuse", 48, 1, b"\x00\x01"),
         ("inj36short", 36, 1, b"\x00\x03"),
         ("wmh36ptr", 36, 3, b"h\x00"),
+        ("wmh36int", 36, 2, b"\x00\x00\x00\x05"),
+        ("wmh36none", 36, 0, b""),
         ("gap75", 75, 3, b"abc"),
         ("none79", 79, 0, b""),
         ("ptr255e", 255, 3, b""),
@@ -73,7 +75,7 @@ def atoms(seed):
     return A
 
 
-CORE = ("proto8", "wmff", "ua-short", "ua-over1", "inj36short", "wmh36ptr", "gap75", "noneffff", "dup-proto", "bof2", "ptr256", "short-len4")
+CORE = ("proto8", "wmff", "ua-short", "ua-over1", "inj36short", "wmh36ptr", "wmh36int", "gap75", "noneffff", "dup-proto", "bof2", "ptr256", "short-len4")
 ENDINGS = ("eof", "term", "term+garbage", "pad4096", "lone-byte", "trunc-record")
 
 
